@@ -32,13 +32,17 @@ def run_seq(kind, v, e, init, ops, how):
     from kaira.models.generic.sequential import SequentialModel
     from kaira.models.base import ConfigurableModel
     trace = []
+    cache = {}
 
     def stage(s):
-        def fn(x, *args, **kw):
-            ee = args[0] if args else kw.get("e", 0)
-            trace.append((s, x))
-            return sf(ee, s, x)
-        return fn
+        # one callable object per stage id: adding the same stage twice puts the same object at two positions
+        if s not in cache:
+            def fn(x, *args, **kw):
+                ee = args[0] if args else kw.get("e", 0)
+                trace.append((s, x))
+                return sf(ee, s, x)
+            cache[s] = fn
+        return cache[s]
     if kind == "seq":
         m = SequentialModel(steps=[stage(s) for s in init]) if init else SequentialModel()
     else:
@@ -166,7 +170,8 @@ def run_br(v, e, ops):
     return " ".join(outs + ["B", rs, "E", ",".join(evaluated) if evaluated else "-"])
 
 
-def run_fb(x, iters):
+def run_fb(x, iters, mode=0):
+    import torch
     from kaira.models.feedback_channel import FeedbackChannelModel
     from kaira.models.base import BaseModel
     from kaira.channels.base import BaseChannel
@@ -177,25 +182,29 @@ def run_fb(x, iters):
             super().__init__(); self.s = s
 
         def forward(self, a, b=None, state=None, **kw):
-            trace.append((self.s, a))
+            trace.append((self.s, int(a)))
+            if mode == 1:
+                return torch.tensor(self.s * 1000 + 7)
             if state is not None:
-                return sf2(self.s, a, state)
+                return torch.tensor(sf2(self.s, int(a), int(state)))
             if b is not None:
-                return sf2(self.s, a, b)
-            return sf(0, self.s, a)
+                return torch.tensor(sf2(self.s, int(a), int(b)))
+            return torch.tensor(sf(0, self.s, int(a)))
 
     class RecCh(BaseChannel):
         def __init__(self, s):
             super().__init__(); self.s = s
 
         def forward(self, a, *args, **kw):
-            trace.append((self.s, a))
-            return sf(0, self.s, a)
+            trace.append((self.s, int(a)))
+            if mode == 1:
+                return torch.tensor(self.s * 1000 + 7)
+            return torch.tensor(sf(0, self.s, int(a)))
     m = FeedbackChannelModel(encoder=Rec(2), forward_channel=RecCh(3), decoder=Rec(4), feedback_generator=Rec(5), feedback_channel=RecCh(6), feedback_processor=Rec(1), max_iterations=iters)
-    res = m(x)
+    res = m(torch.tensor(x))
     ok = len(res["iterations"]) == iters and len(res["feedback_history"]) == iters
     o = res.get("final_output", "none")
-    return "O %s T %s" % (o if ok else "badcount", _tr(trace))
+    return "O %s T %s" % ((int(o) if o != "none" else o) if ok else "badcount:%d" % len(res["iterations"]), _tr(trace))
 
 
 def run_mac(joint, xs, how):
@@ -333,7 +342,16 @@ def _cases(ctx):
     # feedback, MAC
     for iters in range(0, 6):
         for x in (3, rng.randrange(M)):
-            yield ("fb", x, iters)
+            yield ("fb", x, iters, 0)
+        yield ("fb", 5, iters, 1)
+    # the same stage object at several positions, later occurrence removed
+    for ops in (("a1", "a2", "a1", "r2"), ("a1", "a2", "a1", "r0"), ("a4", "a4", "a5", "r1"), ("a1", "a2", "a3", "a1", "a2", "r3", "r3")):
+        yield ("seq", "seq", rng.randrange(1000), 0, (), ops, 0)
+        yield ("seq", "cfg", rng.randrange(1000), 1, (2, 1), ops, 1)
+    for _ in range(60 if ctx.thorough else 25):
+        init = [rng.randrange(1, 4) for _ in range(rng.randint(0, 4))]
+        ops = [rng.choice(["a%d" % rng.randrange(1, 4), "r%d" % rng.randrange(0, 5)]) for _ in range(rng.randint(2, 8))]
+        yield ("seq", rng.choice(["seq", "cfg"]), rng.randrange(M), rng.randrange(3), tuple(init), tuple(ops), rng.randrange(2))
     for n in range(1, 5):
         for joint in (0, 1):
             for how in (0, 1):
@@ -356,7 +374,7 @@ def _line(c):
         _, v, e, ops = c
         return "br %d %d %s" % (v, e, " ".join(ops))
     if k == "fb":
-        return "fb %d %d" % (c[1], c[2])
+        return "fb %d %d %d" % (c[1], c[2], c[3])
     return "mac %d %s" % (c[1], ",".join(map(str, c[2])))
 
 
@@ -373,7 +391,7 @@ def _impl(c):
     if k == "br":
         return run_br(c[1], c[2], c[3])
     if k == "fb":
-        return run_fb(c[1], c[2])
+        return run_fb(c[1], c[2], c[3])
     return run_mac(c[1], c[2], c[3])
 
 
@@ -413,17 +431,19 @@ def _oracle(c):
             rs = "default=%d" % sf(e, default, v) if default is not None else "error"
         return " ".join(outs + ["B", rs, "E", ",".join(ev) if ev else "-"])
     if k == "fb":
-        x, iters = c[1], c[2]
+        x, iters, mode = c[1], c[2], c[3]
+        f1_ = (lambda e, s, v: s * 1000 + 7) if mode == 1 else sf
+        f2_ = (lambda s, a, b: s * 1000 + 7) if mode == 1 else sf2
         tr, fb, out = [], None, "none"
         for i in range(iters):
             if i > 0:
-                tr.append((1, fb)); st = sf(0, 1, fb); tr.append((2, x)); enc = sf2(2, x, st)
+                tr.append((1, fb)); st = f1_(0, 1, fb); tr.append((2, x)); enc = f2_(2, x, st)
             else:
-                tr.append((2, x)); enc = sf(0, 2, x)
-            tr.append((3, enc)); rec = sf(0, 3, enc)
-            tr.append((4, rec)); dec = sf(0, 4, rec)
-            tr.append((5, dec)); f1 = sf2(5, dec, x)
-            tr.append((6, f1)); fb = sf(0, 6, f1)
+                tr.append((2, x)); enc = f1_(0, 2, x)
+            tr.append((3, enc)); rec = f1_(0, 3, enc)
+            tr.append((4, rec)); dec = f1_(0, 4, rec)
+            tr.append((5, dec)); f1 = f2_(5, dec, x)
+            tr.append((6, f1)); fb = f1_(0, 6, f1)
             out = dec
         return "O %s T %s" % (out, _tr(tr))
     joint, xs = c[1], c[2]
